@@ -127,7 +127,7 @@ func (vc *VC) Generate() (err error) {
 			vc.walkInstrs(fn, "", 0, nil, func(x ssa.Instruction, path string) {
 				if st, isStore := x.(*ssa.Store); isStore {
 					// "nosite store:T.f": the function never writes that field
-					if n := storeSiteName(st); n != "" && n == ns.Site {
+					if n := storeSiteName(st); n != "" && (n == ns.Site || (strings.HasSuffix(ns.Site, ".*") && strings.HasPrefix(n, strings.TrimSuffix(ns.Site, "*")))) {
 						b := x.Block()
 						vc.cur = nil
 						o := vc.oblige("nosite", ns.Site, "false", mergeTags(ns.Tags, vc.tagsOfFunc()), x.Pos(), ns)
